@@ -5,11 +5,11 @@ import json
 P = {
  "C01": ("object store", "object.NewObject/Header/compress/Write/GetObject/readHeader, binary.ReadNullTerminatedString and the hash-object/add/cat-file commands executed from SSA; payload bytes 0..6 (thorough 16) all free, size field every value of 1..5 (7) digits followed by free bytes",
          "payloads longer than the bound (multi-MiB content, compressibility) and the internals of deflate/SHA-1 are outside the claim"),
- "C02": ("commit step", "cmd.writeTreeObject, cmd.commit, the commit/add/branch/config RunE closures and everything they call, from `goit init` on an empty model file system; 1..2 files with free names (depth<=2, components<=1 (2) bytes over a-z0-9 space ( + _ . -) and free contents, free message (tab, newline, printable) of 0..1 (2) bytes, with/without parent and second branch; independent Git-format decoders as oracle",
+ "C02": ("commit step", "cmd.writeTreeObject, cmd.commit, the commit/add/branch/config RunE closures and everything they call, from `goit init` on an empty model file system; 1..2 files with free names (depth<=2, components<=1 (2) bytes over a-z0-9 space ( + _ . -) and free contents, free message (tab, newline, printable) of 0..1 (2) bytes, with/without parent and second branch; plus a commit made right after switch / switch -c / branch -r among 1..3 further branches with free case-mixed names of 1 (2) bytes (only the current branch moves, to a commit whose parent is its previous commit); independent Git-format decoders as oracle",
          "more files, deeper paths, longer names/messages, histories longer than two commits"),
  "C03": ("connectivity after one command", "every modifying command's RunE from four reachable prefixes (nothing committed / one commit / two commits + second branch / renamed branch), with hostile branch names ('../../HEAD', 'a/b', '..', free 1..2 byte names), ids of commits/trees/blobs/free 39-41 hex digits, reflog positions 0..9; fsck written in the harness with independent decoders",
          "command sequences longer than prefix + 1; argument strings outside the hostile grammar"),
- "C04": ("add / rm exactness", "add/rm RunE, cmd.add, Index.Update/DeleteEntry/GetEntry/GetEntriesByDirectory, file.GetFilePathsUnderDirectory, Ignore.IsIncluded; 1..2 tracked files (each untouched/edited/deleted) + one untracked file with free names, one free path argument (file, directory, deleted path, unknown, path through a file)",
+ "C04": ("add / rm exactness", "add/rm RunE, cmd.add, Index.Update/DeleteEntry/GetEntry/GetEntriesByDirectory, file.GetFilePathsUnderDirectory, Ignore.IsIncluded; 1..2 tracked files (each untouched/edited/deleted, for rm also replaced by a directory holding an untracked file) + one untracked file with free names, one free path argument (file, directory, deleted path, unknown, path through a file)",
          "more than two tracked files, two arguments, invocation from a sub-directory"),
  "C05": ("snapshot read-back", "writeTreeObject -> GetObject -> NewTree/walkTree -> Tree.String and reset --mixed + ls-files -s; 0..2 (3) entries with free names (space included) and 20 free id bytes each",
          "trees not written by Goit (C19), depth > 2"),
@@ -21,7 +21,7 @@ P = {
          "histories with more than two commits; positions >= 10 only as refusals"),
  "C09": ("restore exactness", "restore RunE, restoreIndex, restoreWorkingDirectory, stagedPathsUnder, GetNode, Node.GetPaths over (HEAD, index, work tree) triples built by real commands with free names and a free path argument",
          "more than two tracked files; two arguments"),
- "C10": ("branch / HEAD state machine", "Refs.getBranchPos/AddBranch/RenameBranch/DeleteBranch/UpdateBranchHash/NewRefs as one step from an ARBITRARY sorted set of 0..3 branches with free names over a-zA-Z0-9_.- (inductive), and branch/switch/update-ref/rev-parse/branch --list at the CLI from 1..3 branches including names 'head'/'Head'",
+ "C10": ("branch / HEAD state machine", "Refs.getBranchPos/AddBranch/RenameBranch/DeleteBranch/UpdateBranchHash/NewRefs as one step from an ARBITRARY sorted set of 0..3 branches with free names over a-zA-Z0-9_.- (inductive), and branch/switch/update-ref/rev-parse/branch --list at the CLI from 1..3 branches (free names over a-zA-Z0-9_.: and space, including 'head'/'Head'; the operand name up to 2 bytes, so ': ' is covered)",
          "interleavings deeper than prefix + 1 are covered only through the inductive kernels"),
  "C11": ("reflog journal", "log.NewRecord/record.String/WriteHEAD -> Reflog.load/GetRecord/Show with 1..2 records, every kind, nil/non-nil ids, free messages of 0..2 (3) bytes over tab/newline/printable, three zone offsets; and commit/switch/switch -c/reset at the CLI after branch -r",
          "messages longer than the bound; symbolic non-ASCII"),
@@ -37,9 +37,9 @@ P = {
          "partial writes, Close errors, more than one fault"),
  "C17": ("ignored paths", "add (file / directory / '.' / '.goit'), status, Ignore.load/IsIncluded, GetFilePathsUnderDirectory(WithIgnore) with free directory names, free extensions, every combination of 'name/' and '*.ext' lines, after the metadata directory has grown; names merely containing '.goit'",
          "nested .goit directories, ignore lines other than 'name/' and '*.ext'"),
- "C18": ("no crash, no hang", "all 19 sub-commands x flag combinations x 0..2 arguments (free 1 (2)-byte strings over a-z0-9 space ( + _ . @ { } * [ -, existing paths, branch names, HEAD@{d}, 39..41 hex digits) from 7 repository states (no repository, fresh, staged only, one commit, empty snapshot committed, renamed branch, no identity); every Go run-time panic is modelled; loops bounded by unwinding assertions; plus every other harness (a panic anywhere is reported)",
+ "C18": ("no crash, no hang", "all 19 sub-commands x flag combinations x 0..2 arguments (free 1 (2)-byte strings over a-z0-9 space ( + _ . @ { } * [ : -, existing paths, branch names, HEAD@{d}, 39..41 hex digits) from 7 repository states (no repository, fresh, staged only, one commit, empty snapshot committed, renamed branch, no identity); after every mutating command seven follow-up commands (status, log, reflog, branch --list, reset --soft HEAD@{0}, add ., commit) run on the state it left, so refused and half-done commands are covered as producers of states; every Go run-time panic is modelled; loops bounded by unwinding assertions; plus every other harness (a panic anywhere is reported)",
          "cobra's own argv tokenisation and help output; wall-clock time"),
- "C19": ("decoders total", "readHeader, GetObject (arbitrary inflated plaintext, wrong name, non-zlib bytes through an over-approximation of inflate), walkTree/NewTree, NewCommit, readSign, Index.read, Config.load, NewHead, NewRefs/ReadHash, Reflog.load/Show on free byte strings of 0..5 (7..12) bytes and on valid prefixes followed by free bytes",
+ "C19": ("decoders total", "readHeader, GetObject (arbitrary inflated plaintext, wrong name, non-zlib bytes through an over-approximation of inflate), walkTree/NewTree, NewCommit, readSign, Index.read, Config.load, NewHead, NewRefs/ReadHash, Reflog.load/Show on free byte strings of 0..5 (7..12) bytes and on valid prefixes followed by free bytes, plus every single-byte substitution, deletion and truncation of valid files; a staging-area file that loads must decode faithfully (re-encoded entries = bytes of the file)",
          "longer inputs; bit-level corruption of the compressed stream is seen only through the over-approximation"),
  "C20": ("configuration", "Config.Add/Write/load/NewConfig for 1..2 (3) free (section,key,value) triples (values printable with inner single spaces, '=' '[' ']' '#' included) under every explored map iteration order, all 16 local/global combinations, and config/commit at the CLI",
          "values with tabs or leading/trailing blanks, non-ASCII"),
